@@ -58,3 +58,8 @@ CLAIMS["C10"] = (
     "Generated particle lists, every symmetry order up to 64 in all spellings and general/on-axis offsets; each output is matched to its parent and subunit index and compared with the orbit formula, id/field discipline and the integer-position invariant. Held on everything explored.",
     "Unique input ids; row order of the output not constrained.",
 )
+CLAIMS["C04"] = (
+    "property-based round trip and differential test against a literal name-pair table; written STAR text parsed by the independent tokenizer; independent STOPGAP inputs (frame and text) imported",
+    "Generated lists go through every export path (in memory, write_out, emmotl2stopgap from table/.em) x reset_index x update_coord and back through every import path, including re-export of a loaded list after update_coordinates; all 14 shared fields, order, half-set parity, motl_idx and the block/label layout are checked. Held on everything explored.",
+    "Trusts the harness' pair table (STOPGAP documentation) and oracle.star_tokenize; file tolerance 5e-7.",
+)
